@@ -151,6 +151,14 @@ def shimurlStep (_ : Unit) : List String → Unit × String
     | .wrapped => ((), "wrapped")
   | _ => ((), "bad-op")
 
+/-- suite `blob`: `shape <len>` → inlined length and number of part entities of `newBlob` for a payload of that length -/
+def blobStep (_ : Unit) : List String → Unit × String
+  | ["shape", n] =>
+    let len := natD n
+    if Gen.store_inlineTest len then ((), s!"inlined={len} parts=0")
+    else ((), s!"inlined={Gen.store_fieldByteLimit} parts={Gen.store_partCount (len - Gen.store_fieldByteLimit)}")
+  | _ => ((), "bad-op")
+
 /-- suite `quote`: `q <hex>` → `%q` of the bytes | `key <fmt-hex> <a-hex> <b-hex>` → fmt.Sprintf(fmt, a, b) for two-verb formats -/
 def quoteStep (_ : Unit) : List String → Unit × String
   | ["q", h] => ((), hexOf (Keys.quote (unhexD h)))
@@ -407,6 +415,7 @@ def main (args : List String) : IO UInt32 := do
   | ["wsinject"] => loop stdin stdout wsinjectStep (); return 0
   | ["shimurl"] => loop stdin stdout shimurlStep (); return 0
   | ["quote"] => loop stdin stdout quoteStep (); return 0
+  | ["blob"] => loop stdin stdout blobStep (); return 0
   | ["identity"] => loop stdin stdout identityStep (); return 0
   | ["banner"] => loop stdin stdout bannerStep (); return 0
   | ["splice"] => loop stdin stdout spliceStep []; return 0
